@@ -1375,7 +1375,8 @@ class SubCheck:
         self.ck = ck
         self.new_rule = new_rule
         self.only = set(only_rules)
-        ck.rule(new_rule, desc)
+        if desc or new_rule not in ck.rules:
+            ck.rule(new_rule, desc)
         self.units = ck.units
         self.not_decided = []
         self.notes = []
